@@ -204,13 +204,17 @@ def run(run):
                         run.case(("papr-rowscaled", cplx, shape, fname, lim), nontrivial=True)
     # ---------------------------------------------------------------- composites: order and equality with sequential application
     pool = [("total", lambda: K.TotalPowerConstraint(2.0)), ("avg", lambda: K.AveragePowerConstraint(0.3)), ("peak", lambda: K.PeakAmplitudeConstraint(0.8)),
-            ("papr", lambda: K.PAPRConstraint(max_papr=3.0)), ("identity", lambda: K.IdentityConstraint())]
-    for rep in range(12 if quick else 80):
+            ("papr", lambda: K.PAPRConstraint(max_papr=3.0)), ("identity", lambda: K.IdentityConstraint()),
+            ("perantenna", lambda: K.PerAntennaPowerConstraint(uniform_power=0.5)), ("perantenna_budget", lambda: K.PerAntennaPowerConstraint(power_budget=torch.tensor([0.2, 1.0, 0.5, 2.0])))]
+    for rep in range(40 if quick else 300):
         chain = [rng.choice(pool) for _ in range(rng.randint(1, 4))]
         parts = [mk() for _, mk in chain]
         order = []
         hooks = [p.register_forward_hook(lambda m_, i, o, idx=idx: order.append(idx)) for idx, p in enumerate(parts, start=1)]
         x = families(rng, 256, False)[rng.choice(["gaussian", "heavy", "ofdm"])].reshape(4, 64) * rng.choice([0.1, 1.0, 20.0])
+        if any(nm.startswith("perantenna") for nm, _ in chain):
+            # (batch, antennas, samples) with unequal antenna powers, so that a per-antenna stage is not a no-op for the stages around it
+            x = x.reshape(2, 4, 32) * torch.tensor([0.3, 1.0, 2.0, 5.0]).reshape(1, 4, 1)
         cfg = {"constraint": "CompositeConstraint", "chain": [nm for nm, _ in chain]}
         try:
             comp = K.CompositeConstraint(parts) if rep % 2 == 0 else K.utils.combine_constraints(parts)
